@@ -336,7 +336,7 @@ theorem runFrom_error_viable (hv : Valid G A C) (hr : Reduced G) (w : List Token
 
 theorem step_congr {w₁ w₂ : List Token} {c : Config} (h : w₁[c.cursor]? = w₂[c.cursor]?) :
     step A w₁ c = step A w₂ c := by
-  unfold step lookahead
+  unfold step nextAction clientEoi lookahead
   rw [h]
 
 theorem runFrom_error_ge {w : List Token} : ∀ (f : Nat) (c : Config) {code : Option Nat} {i s : Nat}
